@@ -151,7 +151,7 @@ DiskCommit(m, did, bid, force) ==
                         !.buf = IF flush THEN NoFn ELSE merged,
                         !.bufLayers = IF flush THEN 0 ELSE nlayers,
                         !.dnodes = IF flush THEN WriteNodes(m.dnodes, merged, TRUE) ELSE m.dnodes,
-                        !.clean = IF flush THEN WriteNodes(m.clean, merged, Bug # "no-clean-update") ELSE m.clean,
+                        !.clean = IF flush /\ Bug # "no-clean-invalidate" THEN WriteNodes(m.clean, merged, TRUE) ELSE m.clean,
                         !.pid = IF flush THEN b.sid ELSE m.pid,
                         !.dcontent = IF flush THEN b.root.c ELSE m.dcontent],
         base |-> newId, ok |-> TRUE]
